@@ -895,18 +895,9 @@ impl<T: Serialize + for<'de> Deserialize<'de> + Clone + PartialEq + Send + Sync 
 
         for snapshot_path in snapshots.iter().rev() {
             match self.load_snapshot(snapshot_path).await {
-                Ok((header, loaded_state)) => {
-                    // Verify checksum
-                    let data = postcard::to_stdvec(&loaded_state).map_err(|e| {
-                        P2PError::Storage(StorageError::Database(
-                            format!("Failed to serialize for checksum: {e}").into(),
-                        ))
-                    })?;
-
-                    let mut hasher = Sha256::new();
-                    hasher.update(&data);
-                    let checksum: [u8; 32] = hasher.finalize().into();
-
+                Ok((header, loaded_state, checksum)) => {
+                    // Verify checksum (computed over the bytes as stored; re-serialising the
+                    // map would depend on its iteration order)
                     if checksum != header.checksum {
                         stats.corruption_events.push(CorruptionEvent {
                             file_path: snapshot_path.clone(),
@@ -1217,7 +1208,10 @@ impl<T: Serialize + for<'de> Deserialize<'de> + Clone + PartialEq + Send + Sync 
     }
 
     /// Load snapshot from file
-    async fn load_snapshot(&self, path: &Path) -> Result<(SnapshotHeader, HashMap<String, T>)> {
+    async fn load_snapshot(
+        &self,
+        path: &Path,
+    ) -> Result<(SnapshotHeader, HashMap<String, T>, [u8; 32])> {
         let mut file = File::open(path).map_err(|e| {
             P2PError::Storage(StorageError::Database(
                 format!("Failed to open snapshot: {e}").into(),
@@ -1263,7 +1257,12 @@ impl<T: Serialize + for<'de> Deserialize<'de> + Clone + PartialEq + Send + Sync 
             ))
         })?;
 
-        Ok((header, state))
+        // Checksum of the snapshot data exactly as read from disk
+        let mut hasher = Sha256::new();
+        hasher.update(&snapshot_data);
+        let checksum: [u8; 32] = hasher.finalize().into();
+
+        Ok((header, state, checksum))
     }
 
     /// Clean up old WAL files
@@ -1476,19 +1475,9 @@ impl<T: Serialize + for<'de> Deserialize<'de> + Clone + PartialEq + Send + Sync 
 
     /// Verify snapshot integrity
     async fn verify_snapshot_integrity(&self, path: &Path) -> Result<()> {
-        let (header, state) = self.load_snapshot(path).await?;
+        let (header, _state, checksum) = self.load_snapshot(path).await?;
 
-        // Verify checksum
-        let data = postcard::to_stdvec(&state).map_err(|e| {
-            P2PError::Storage(StorageError::Database(
-                format!("Failed to serialize for checksum: {e}").into(),
-            ))
-        })?;
-
-        let mut hasher = Sha256::new();
-        hasher.update(&data);
-        let checksum: [u8; 32] = hasher.finalize().into();
-
+        // Verify checksum of the stored bytes
         if checksum != header.checksum {
             return Err(P2PError::Storage(
                 crate::error::StorageError::CorruptionDetected(
